@@ -4,6 +4,8 @@
 
 #include <cstdio>
 #include <unistd.h>
+#include <csignal>
+#include <cstring>
 #include <dune/common/bigunsignedint.hh>
 #include <dune/common/exceptions.hh>
 #include <dune/common/hash.hh>
@@ -12,7 +14,16 @@
 
 using namespace dv;
 
-static unsigned dv_case_timeout = 30;  // seconds per case (--case-timeout)
+static unsigned dv_case_timeout = 10;  // seconds per case; a normal case takes microseconds
+static char dv_current_case[1024];
+extern "C" void dv_on_alarm(int) {
+  // async-signal-safe: write(2) and _exit only
+  static const char msg[] = "TIMEOUT: the operation did not return (hang / non-termination) in case: ";
+  (void)!write(2, msg, sizeof msg - 1);
+  (void)!write(2, dv_current_case, std::strlen(dv_current_case));
+  (void)!write(2, "\n", 1);
+  _exit(124);
+}
 
 template <int k>
 struct Acc : Dune::Impl::numeric_limits_helper<Dune::bigunsignedint<k>> {
@@ -118,8 +129,9 @@ Result execProg(const std::string& line) {
   std::string fail;
   auto stmts = split(hb[1], ';');
   stat("prog_len_" + std::to_string(std::min<size_t>(stmts.size(), 16)));
-  for (auto& st : stmts) {
-    auto w = words(st);
+  for (auto& stRaw : stmts) {
+    auto w = words(stRaw);
+    const std::string st = join(w.begin(), w.end(), " ");
     if (w.size() < 2 || (w[1] != "a" && w[1] != "b")) { res.impl = "bad-op"; res.oracle = "FAIL malformed statement '" + st + "'"; return res; }
     const std::string& op = w[0];
     bool dIsA = w[1] == "a";
@@ -482,6 +494,8 @@ Result exec(const std::string& line) {
   if (w.size() < 2) return Result{"bad-op", "FAIL malformed line"};
   int k = std::stoi(w[0]);
   // a case that does not return is killed: for this property a hang on a valid input is a violation
+  std::strncpy(dv_current_case, line.c_str(), sizeof dv_current_case - 1);
+  std::signal(SIGALRM, dv_on_alarm);
   alarm(dv_case_timeout);
   struct Disarm { ~Disarm() { alarm(0); } } disarm;
   switch (k) {
